@@ -1,7 +1,8 @@
 (** C02 — type-checked programs do not fail with run-time type errors: property theorems (proofs in ProofsSound.v).
 
     Model: checker Typing/Check.v, run-time semantics Typing/Eval.v (operators of CoreErg/Sem.v + the Nat wrapper that
-    codegen.rs puts around every typed operator/method/call result + user functions + builtin methods).
+    codegen.rs puts around every typed operator/method/call result + user functions + builtin methods).  [run_prog
+    false] is the model of erg as it is: acceptance and wrapper annotations with the operator table as declared.
     [type_error e]: e is TypeError, AttributeError, NameError or the wrapper's ValueError ("Nat can't be negative").
     The legitimate errors (ZeroDivisionError, IndexError, AssertionError, OverflowError of int->float) stay possible;
     [EUnmodelled] marks the operations CoreErg/Sem.v does not model (float // % **, negative exponent).
@@ -24,19 +25,21 @@ Open Scope Z_scope.
 (** 1. soundness, for every fuel: an accepted program outside the known class never ends in one of the four classes *)
 Theorem type_soundness : forall p fuel,
   typecheck false p = true -> Known_C02 p = false ->
-  match snd (run_prog true fuel p) with
+  match snd (run_prog false fuel p) with
   | Uncaught e => type_error e = false /\ e <> EStatic
   | _ => True
   end.
-Proof. intros p fuel _ _. apply run_sound. Qed.
-
-(* under the hypotheses the program is indeed run (the guard only removes the K_pow class) *)
-Theorem accepted_is_run : forall p fuel,
-  typecheck false p = true -> Known_C02 p = false -> snd (run_prog true fuel p) <> Rejected.
 Proof.
   intros p fuel H K. unfold Known_C02 in K. apply orb_false_iff in K. destruct K as [K _].
   unfold known_pow in K. rewrite H in K. cbn in K. apply negb_false_iff in K.
-  unfold run_prog. rewrite K. destruct (exec_block true fuel p init_state); cbn; discriminate.
+  rewrite (run_prog_gate fuel p H K). apply run_sound.
+Qed.
+
+(* under the hypotheses the program is indeed run (the guard only removes the K_pow class) *)
+Theorem accepted_is_run : forall p fuel,
+  typecheck false p = true -> Known_C02 p = false -> snd (run_prog false fuel p) <> Rejected.
+Proof.
+  intros p fuel H K. unfold run_prog. rewrite H. destruct (exec_block fuel p init_state); cbn; discriminate.
 Qed.
 
 Definition ex_ok : prog :=
@@ -45,13 +48,13 @@ Definition ex_ok : prog :=
    TDef 5 None (XCall 1 [XLit (LNat 2)]);
    TPrint [XVar 5; XBin ODiv (XVar 5) (XLit (LNat 0))]].
 Example type_soundness_nonvacuous :
-  typecheck false ex_ok = true /\ Known_C02 ex_ok = false /\ snd (run_prog true 5 ex_ok) = Uncaught EZeroDiv.
+  typecheck false ex_ok = true /\ Known_C02 ex_ok = false /\ snd (run_prog false 5 ex_ok) = Uncaught EZeroDiv.
 Proof. repeat split; vm_compute; reflexivity. Qed.
 
 (** 2. preservation, the lemma behind it: every evaluated expression yields a value of its static type *)
 Theorem preservation : forall callf FS G en e t,
   callf_ok FS callf -> env_ok G en -> infer true FS G e = Some t ->
-  match eval true callf FS G en e with
+  match eval callf FS G en e with
   | R_ok v => has_ty v t = true
   | R_err er => type_error er = false /\ er <> EStatic
   | R_fuel => True
